@@ -286,6 +286,28 @@ def gen():
            ""]
     enums = {}
     for modname, fname, coqname in FUNCTIONS:
+        try:
+            out.append(gen_function(importlib, modname, fname, coqname, enums))
+        except TieError as e:
+            # one function outside the subset must not take the ties of the others with it: it gets a stub that
+            # raises, so exactly the tie theorems about THIS function stop checking (and say why)
+            FAILED.append("%s.%s: %s" % (modname, fname, e))
+            out.append("(* %s.%s -- UNTRANSLATABLE: %s *)" % (modname, fname, str(e).replace("*)", "* )").replace("(*", "( *").replace('"', "''")))
+            out.append("Definition %s : fundef := mkFun [] [] [SRaise OtherError]." % coqname)
+        out.append("")
+    out.append("(* member names of the Enum classes mentioned by the functions above *)")
+    out.append("Definition py_enums : list (string * list string) :=\n  [%s]." % "; ".join(
+        "(%s, [%s])" % (q(n), "; ".join(q(m) for m in ms)) for n, ms in sorted(enums.items())))
+    out.append("")
+    return "\n".join(out)
+
+
+FAILED = []
+
+
+def gen_function(importlib, modname, fname, coqname, enums):
+    out = []
+    if True:
         mod = importlib.import_module(modname)
         fn = getattr(mod, fname, None)
         if not inspect.isfunction(fn) or fn.__name__ != fname or fn.__module__ != modname:
@@ -304,11 +326,6 @@ def gen():
         out.append("(* %s.%s *)" % (modname, fname))
         out.append("Definition %s : fundef :=\n  mkFun [%s] [%s]\n  %s." % (
             coqname, "; ".join(q(p) for p in params), "; ".join(defaults), block(fd.body, 2)))
-        out.append("")
-    out.append("(* member names of the Enum classes mentioned by the functions above *)")
-    out.append("Definition py_enums : list (string * list string) :=\n  [%s]." % "; ".join(
-        "(%s, [%s])" % (q(n), "; ".join(q(m) for m in ms)) for n, ms in sorted(enums.items())))
-    out.append("")
     return "\n".join(out)
 
 
@@ -326,9 +343,9 @@ def main():
         os.makedirs(os.path.dirname(OUT), exist_ok=True)
         with open(OUT, "w") as f:
             f.write(text)
-        print("Pure.v rewritten")
+        print("Pure.v rewritten" + "".join("; TIE-ERROR " + f for f in FAILED))
     else:
-        print("Pure.v unchanged")
+        print("Pure.v unchanged" + "".join("; TIE-ERROR " + f for f in FAILED))
 
 
 if __name__ == "__main__":
